@@ -13,6 +13,8 @@ func init() {
 			c.ruleFirstWins("R-FIRST-WINS", "internal/filedesc", 18)
 			c.ruleListGet("R-LIST-GET", "internal/filedesc")
 			c.ruleLookupViaIndex("R-LOOKUP-VIA-INDEX", "internal/filedesc", 20)
+			c.ruleHasMembership("R-HAS-MEMBERSHIP", "internal/filedesc", 4)
+			c.ruleMapEntryLinks("R-MAP-ENTRY-LINKS")
 		},
 	})
 }
